@@ -79,7 +79,9 @@ struct Case {
     derive_first: bool,
 }
 
-const KINDS: [(&str, usize); 15] = [
+const KINDS: [(&str, usize); 17] = [
+    // tuple structs whose where-clause comes after the field list and itself contains bracketed / parenthesised groups
+    ("generic-tuple-struct-where-groups", 2), ("generic-tuple-struct-where-fn-bound", 1),
     ("named-struct", 2), ("tuple-struct", 2), ("unit-struct", 0), ("enum", 6), ("union", 2), ("alias", 0), ("const", 0), ("generic-struct", 2), ("generic-enum", 3),
     // the same items with other visibilities (the macro sees the visibility tokens before the item keyword)
     ("alias-pub-crate", 0), ("alias-private", 0), ("alias-generic-pub-super", 0), ("const-pub-crate", 0), ("const-pub-in-path", 0), ("static-like-const-private", 0),
@@ -139,6 +141,14 @@ fn module_src(c: &Case, with: bool) -> (String, Option<String>) {
         "const-pub-in-path" => (format!("{ts}\n#[verif_dump]\npub(in crate) const SUBJECT: u32 = 5;\n"), None),
         "static-like-const-private" => (format!("{ts}\n#[verif_dump]\nconst SUBJECT: &str = \"text\";\n"), None),
         "const" => (format!("{ts}\n#[verif_dump]\npub const SUBJECT: u32 = 5;\n"), None),
+        "generic-tuple-struct-where-groups" => (
+            format!("{head}\n#[serde(bound = \"T: Serialize + serde::de::DeserializeOwned\")]\npub struct Subject<T>({} pub u32, {} pub String, pub std::marker::PhantomData<T>)\nwhere\n    T: Clone + std::fmt::Debug,\n    [T; 2]: Clone,\n    (T, T): Clone;\n", d(0, "t"), d(1, "t")),
+            (!any_out && !any_skip).then(|| "vec![Subject::<u32>(7, \"b\".to_string(), std::marker::PhantomData)]".to_string()),
+        ),
+        "generic-tuple-struct-where-fn-bound" => (
+            format!("{head}\n#[serde(bound = \"T: Serialize + serde::de::DeserializeOwned\")]\npub struct Subject<T>({} pub Vec<T>, pub std::marker::PhantomData<T>)\nwhere\n    T: Clone + std::fmt::Debug,\n    fn(T) -> (T, [u8; 4]): Copy;\n", d(0, "t")),
+            (!any_out && !any_skip).then(|| "vec![Subject::<u32>(vec![7, 8], std::marker::PhantomData)]".to_string()),
+        ),
         "generic-struct" => (
             format!("{head}\n#[serde(bound = \"T: Serialize + serde::de::DeserializeOwned\")]\npub struct Subject<T>\nwhere\n    T: Clone + std::fmt::Debug,\n{{\n    {} pub first: Vec<T>,\n    {} pub second: Option<T>,\n}}\n", d(0, "g"), d(1, "g")),
             (!any_out).then(|| "vec![Subject::<u32> { first: vec![1, 2], second: Some(3) }]".to_string()),
